@@ -24,6 +24,7 @@ The start-up and shutdown functions are *interpreted from the lists regenerated 
   `Close`: `signal_path_is_close`, `panic_path_is_close`, over the skeleton regenerated from `openTty`).
 -/
 import VaxisModel.Props.C07
+import VaxisModel.Props.C01
 import VaxisModel.Lemmas.C04Chunk00
 import VaxisModel.Lemmas.C04Chunk01
 import VaxisModel.Lemmas.C04Chunk02
@@ -176,6 +177,24 @@ theorem panic_path_is_close (e : Env) (w : WSt) :
   have hw : ({ w with closed := w.closed || false } : WSt) = w := by simp
   simp only [closeW, interp, h, hw, and_self]
 
+/-! ### The saved original values are written by start-up only -/
+
+/-- **Every site in the package that writes a value which shutdown formats into a restore
+    sequence** (regenerated from all non-test files of the package): the kitty keyboard flags are
+    set in `New` from the options; `appIDLast` is assigned once, in `New`'s start-up loop, from the
+    terminal's OSC 176 reply; `userCursorStyle` only in `handleSequence`'s DECRPSS reply arm.  No
+    application-facing call (`SetAppID`, `ShowCursor`, …) writes them — which is why the model keeps
+    them constant over a session (`Env`) and why `balanced` may identify `appIDLast` with the
+    terminal's ORIGINAL application id. -/
+theorem facts_savedValueWrites :
+    Gen.Modes.savedValueWrites =
+      [("kittyFlags", "New", "kittyFlags: int(CSIuDisambiguate)"),
+       ("kittyFlags", "New", "vx.kittyFlags = int(opts.CSIuBitMask)"),
+       ("kittyFlags", "New", "vx.kittyFlags |= int(CSIuReportEvents)"),
+       ("appIDLast", "New", "vx.appIDLast = ev"),
+       ("userCursorStyle", "handleSequence", "vx.userCursorStyle = CursorStyle(cursorStyle - 0x30)")] := by
+  decide
+
 /-! ### The direct token mappings agree with the lexer -/
 
 /-- The printed forms of DECSET/DECRST lex to exactly the tokens the lifecycle model maps them to
@@ -222,76 +241,97 @@ theorem no_opaque_items :
 theorem unsettable_id_is_query : ¬ SettableId "?" := by
   unfold SettableId; decide +kernel
 
-/-! ### Frames do not touch the lifecycle state -/
+/-! ### Frames: every frame of the renderer model is an admissible `Op.frame` -/
 
 section frames
-open VaxisModel.Model.Render VaxisModel.Lemmas.RenderGate VaxisModel.Spec
+open VaxisModel.Model.Render VaxisModel.Lemmas.RenderGate VaxisModel.Spec VaxisModel.Lemmas.RenderToks
 
 /-- The part of the terminal that start-up establishes and only shutdown may change. -/
 def core (t : MTerm) : List (Nat × Bool) × Bool × Nat × Bool × String :=
   (t.modes, t.alt, t.kitty, t.keypadApp, t.appId)
 
-private theorem step_core (t : MTerm) (caps : Caps) (k : Tok) (h : allowedTok caps k = true)
-    (hk : ∀ r, k ≠ Tok.other r) : core (ModeTerm.step t k) = core t := by
+/-- The renderer never writes a token outside its own vocabulary (`Tok.other`), for any capability set. -/
+private theorem render_no_other (cw : String → Nat) (f : Frame) : ∀ k ∈ (renderFrame cw f).2, ∀ r, k ≠ Tok.other r := by
+  intro k hk r hr
+  subst hr
+  obtain ⟨pre, extra, close, show_, hb, hpre, hvoc, hclose, _, hs⟩ := Lemmas.RenderToks.renderBody_shape cw f
+  have hbody : ∀ k' ∈ (renderBody cw f).2, ∀ r', k' ≠ Tok.other r' := by
+    intro k' hk' r' hr'
+    rw [hb] at hk'
+    simp only [List.mem_append] at hk'
+    rcases hk' with ((hk' | hk') | hk') | hk'
+    · rcases hpre with h0 | ⟨s, h0⟩ <;> subst h0 <;> simp at hk'
+      subst hk'; cases hr'
+    · have := hvoc k' hk'; subst hr'; exact this
+    · rcases hclose with h0 | h0 <;> subst h0 <;> simp at hk'
+      subst hk'; cases hr'
+    · subst hs; split at hk'
+      · simp [showCursorToks] at hk'; rcases hk' with rfl | rfl | rfl <;> cases hr'
+      · simp at hk'
+  unfold renderFrame flush at hk
+  simp only at hk
+  split at hk
+  · repeat' split at hk
+    all_goals simp [showCursorToks] at hk
+  · simp only [List.mem_append, List.mem_singleton] at hk
+    rcases hk with ((((hk | hk) | hk) | hk) | hk) | hk
+    · split at hk <;> simp at hk
+    · split at hk <;> simp at hk
+    · exact hbody _ hk r rfl
+    · cases hk
+    · split at hk
+      · simp [showCursorToks] at hk
+      · simp at hk
+    · split at hk <;> simp at hk
+
+private theorem linkOpen_step (t : MTerm) (k : Tok) (l : String) (h : t.linkOpen = decide (l ≠ "")) :
+    (ModeTerm.step t k).linkOpen = decide (linkStep l k ≠ "") := by
   cases k with
-  | other r => exact absurd rfl (hk r)
-  | decset n =>
-    simp only [allowedTok, Bool.or_eq_true, beq_iff_eq, Bool.and_eq_true] at h
-    rcases h with h | ⟨h, _⟩ <;> subst h <;> simp [ModeTerm.step, decMode, core] <;> (try split) <;> simp
-  | decrst n =>
-    simp only [allowedTok, Bool.or_eq_true, beq_iff_eq, Bool.and_eq_true] at h
-    rcases h with h | ⟨h, _⟩ <;> subst h <;> simp [ModeTerm.step, decMode, core] <;> (try split) <;> simp
-  | _ => simp [ModeTerm.step, core]
+  | osc8 p u => by_cases hu : u = "" <;> simp [ModeTerm.step, linkStep, hu]
+  | decset n => simp only [ModeTerm.step, decMode, linkStep]; (repeat' split) <;> exact h
+  | decrst n => simp only [ModeTerm.step, decMode, linkStep]; (repeat' split) <;> exact h
+  | other r => simp only [ModeTerm.step, ModeTerm.other, linkStep]; (repeat' split) <;> exact h
+  | _ => exact h
+
+private theorem linkOpen_run (toks : List Tok) (t : MTerm) (l : String) (h : t.linkOpen = decide (l ≠ "")) :
+    (ModeTerm.run t toks).linkOpen = decide (linkRun l toks ≠ "") := by
+  induction toks generalizing t l with
+  | nil => exact h
+  | cons k ks ih =>
+    simp only [ModeTerm.run, List.foldl_cons, linkRun]
+    exact ih _ _ (linkOpen_step t k l h)
+
+/-- **Every frame the renderer model can produce — any cells, any cursor request, any capability
+    set — is an admissible frame operation of `balanced`**: renderer vocabulary only (the only private
+    modes are cursor visibility and the synchronized-update brackets), and no hyperlink left open. -/
+theorem renderFrame_ok (cw : String → Nat) (f : Frame) : (Op.frame (renderFrame cw f).2).ok := by
+  refine ⟨?_, ?_⟩
+  · intro k hk
+    have ha := C07.render_gated cw f k hk
+    have hn := render_no_other cw f k hk
+    cases k with
+    | other r => exact absurd rfl (hn r)
+    | decset n =>
+      simp only [allowedTok, Bool.or_eq_true, beq_iff_eq, Bool.and_eq_true] at ha
+      rcases ha with h | ⟨h, _⟩ <;> subst h <;> rfl
+    | decrst n =>
+      simp only [allowedTok, Bool.or_eq_true, beq_iff_eq, Bool.and_eq_true] at ha
+      rcases ha with h | ⟨h, _⟩ <;> subst h <;> rfl
+    | _ => rfl
+  · intro t ht
+    have hrest := C01.flush_epilogue (fun _ => 1) cw f (Display.Term.init 1 1) ⟨rfl, rfl, rfl⟩
+    have hl := (run_fields (fun _ => 1) (renderFrame cw f).2 (Display.Term.init 1 1)).1
+    rw [hrest.2.1] at hl
+    have := linkOpen_run (renderFrame cw f).2 t "" (by simp [ht])
+    rw [this, show linkRun "" (renderFrame cw f).2 = "" from hl.symm]
+    simp
 
 /-- **Frames never change a mode, the screen selector, the kitty keyboard stack, the keypad mode or
-    the application id** — whatever is drawn, under every capability set. So the state that
-    `balanced` / `resume_reestablishes` start from is the one start-up established, after any
-    number of frames. -/
+    the application id** — whatever is drawn, under every capability set. -/
 theorem frame_keeps_core (cw : String → Nat) (f : Frame) (t : MTerm) :
     core (ModeTerm.run t (renderFrame cw f).2) = core t := by
-  have hall := C07.render_gated cw f
-  have hno : ∀ k ∈ (renderFrame cw f).2, ∀ r, k ≠ Tok.other r := by
-    intro k hk r hr
-    -- `other` tokens are never produced, for any capability set
-    subst hr
-    obtain ⟨pre, extra, close, show_, hb, hpre, hvoc, hclose, _, hs⟩ := Lemmas.RenderToks.renderBody_shape cw f
-    have hbody : ∀ k' ∈ (renderBody cw f).2, ∀ r', k' ≠ Tok.other r' := by
-      intro k' hk' r' hr'
-      rw [hb] at hk'
-      simp only [List.mem_append] at hk'
-      rcases hk' with ((hk' | hk') | hk') | hk'
-      · rcases hpre with h0 | ⟨s, h0⟩ <;> subst h0 <;> simp at hk'
-        subst hk'; cases hr'
-      · have := hvoc k' hk'; subst hr'; exact this
-      · rcases hclose with h0 | h0 <;> subst h0 <;> simp at hk'
-        subst hk'; cases hr'
-      · subst hs; split at hk'
-        · simp [showCursorToks] at hk'; rcases hk' with rfl | rfl | rfl <;> cases hr'
-        · simp at hk'
-    unfold renderFrame flush at hk
-    simp only at hk
-    split at hk
-    · repeat' split at hk
-      all_goals simp [showCursorToks] at hk
-    · simp only [List.mem_append, List.mem_singleton] at hk
-      rcases hk with ((((hk | hk) | hk) | hk) | hk) | hk
-      · split at hk <;> simp at hk
-      · split at hk <;> simp at hk
-      · exact hbody _ hk r rfl
-      · cases hk
-      · split at hk
-        · simp [showCursorToks] at hk
-        · simp at hk
-      · split at hk <;> simp at hk
-  generalize (renderFrame cw f).2 = toks at hall hno
-  induction toks generalizing t with
-  | nil => rfl
-  | cons k ks ih =>
-    simp only [ModeTerm.run, List.foldl_cons]
-    have h1 := step_core t f.caps k (hall k (by simp)) (hno k (by simp))
-    have h2 := ih (ModeTerm.step t k) (fun k' hk' => hall k' (by simp [hk'])) (fun k' hk' => hno k' (by simp [hk']))
-    simp only [ModeTerm.run] at h2
-    rw [h2, h1]
+  have k := keeps_run t (renderFrame cw f).2 (renderFrame_ok cw f).1
+  simp only [core, k.modes, k.alt, k.kitty, k.keypadApp, k.appId]
 
 end frames
 
